@@ -36,7 +36,10 @@ def check(ix, rep):
         slot = 'dense-offline:%s' % nc.name
         rep.analysed(f)
         rep.unit(f.module.rel)
-        if nc.name in ('Constant', 'Variable'):
+        if nc.name == 'Constant':
+            densesum.check_constant_leaf(rep, f, '%s.val' % f.node.args.args[1].arg, slot)
+            continue
+        if nc.name == 'Variable':
             continue
         if nc.name == 'Predicate':
             nf, partial = densesum.predicate_table_offline(ix, f)
